@@ -33,6 +33,7 @@ deriving Inhabited
 def toEv (r : Array String) : Option Ev :=
   match r.getD 0 "" with
   | "save" | "remove" => some { kind := r.getD 0 "", start := natAt r 1, t := natAt r 2, ok := r.getD 3 "0" == "1", name := r.getD 4 "-" }
+  | "list" => some { kind := "list", start := natAt r 1, t := natAt r 1, ok := r.getD 2 "0" == "1", name := r.getD 3 "-" }
   | "freeze" => some { kind := "freeze", start := natAt r 1, t := natAt r 1, ok := true, name := "-" }
   | "unfreeze" => some { kind := "unfreeze", start := natAt r 1, t := natAt r 1, ok := r.getD 2 "0" == "1", name := "-" }
   | "acq" | "cancel" => some { kind := r.getD 0 "", start := natAt r 1, t := natAt r 1, ok := true, name := "-" }
@@ -47,6 +48,9 @@ structure Obs13 where
   frozen : Bool := false
   freezeAt : Nat := 0
   curPresentAtFreeze : Bool := true
+  curAtFreeze : String := "-"
+  lostInWindow : Bool := false   -- the lock the holder had at Freeze was removed by somebody else inside the window
+  checkedAfterLoss : Bool := false -- … and an existence check (List) of the forced refresh ran after that
   lastM : Nat := 0               -- (approximate) last notification of the monitor
   lastR : Nat := 0               -- stamp of the last successful refresh
   pendingSave : Option Nat := none  -- stamp of a regular refresh whose old-file removal has not been seen
@@ -105,12 +109,16 @@ def handleC13 (c : Case) : Verdict :=
         match a.pendingSave with
         | some st => if a.frozen then a else { a with lastM := e.t, lastR := st, pendingSave := none }
         | none => a
-      | "rmother" => { a with present := a.present.erase e.name, removedByOther := true }.label "removed-by-other"
+      | "rmother" =>
+        let a := if a.frozen && e.name == a.curAtFreeze then { a with lostInWindow := true } else a
+        { a with present := a.present.erase e.name, removedByOther := true }.label "removed-by-other"
+      | "list" => if a.frozen && a.lostInWindow then { a with checkedAfterLoss := true } else a
       | "freeze" =>
         let a := if active then { a with ages := (e.t - a.fileTime) :: a.ages } else a
         -- guard of `monPollDue`: the monitor forces a refresh only when R has passed since its last notification
         let a := if e.t + jitter < a.lastM + rt then a.differ "force-guard" s!"forced refresh {e.t - a.lastM}us after the last notification (R={rt})" else a
-        { a with frozen := true, freezeAt := e.t, curPresentAtFreeze := a.present.contains a.cur, nforced := a.nforced + 1 }
+        { a with frozen := true, freezeAt := e.t, curPresentAtFreeze := a.present.contains a.cur, curAtFreeze := a.cur,
+                 lostInWindow := false, checkedAfterLoss := false, nforced := a.nforced + 1 }
       | "unfreeze" =>
         let a := { a with frozen := false }
         if e.ok then
@@ -118,8 +126,9 @@ def handleC13 (c : Case) : Verdict :=
           { a with ended := true }
         else
           -- the forced refresh succeeded although the holder's lock file was gone when it started
-          let a := if !a.curPresentAtFreeze && !a.ended then
-              a.bad "C13:removed-lock-not-detected" s!"forced refresh at {a.freezeAt}us succeeded although lock file was removed" else a
+          let a := if (!a.curPresentAtFreeze || a.checkedAfterLoss) && !a.ended then
+              a.bad "C13:removed-lock-not-detected" s!"forced refresh at {a.freezeAt}us succeeded although lock file {a.curAtFreeze} was removed (before the refresh: {!a.curPresentAtFreeze}; before an existence check inside it: {a.checkedAfterLoss})" else a
+          let a := if a.lostInWindow then a.label "lock-removed-inside-forced-refresh" else a
           ({ a with lastM := e.t, lastR := a.fileTime }.label "forced-refresh-ok")
       | "cancel" =>
         if a.ended then a else
